@@ -5,6 +5,12 @@ Operational model of `search/searcher/search_disjunction_slice.go` (C08, C02): t
 (up to `DisjunctionHeapTakeover` clauses) as a state machine over its clause searchers.  `matching` is
 not kept as state: the Go code recomputes it (`updateMatches`) after every change of the cursors, so it
 is a function of them — the clauses whose cursor is on the smallest cursor value.
+`search_disjunction_heap.go` (more than ten clauses) keeps the cursors in a `container/heap` instead of
+scanning a slice; with the heap taken as a priority queue that yields a smallest cursor (its
+implementation is trusted) it is the same machine: `matching` is the group of clauses popped with the
+smallest cursor value, `Next` moves that group on, `Advance` moves on exactly the clauses whose cursor
+is behind the target.  The order in which equal cursors are popped only affects the order in which
+scores are summed (the C05 finding on heap disjunctions).
 -/
 namespace Bleve.DisjSearcher
 open Bleve.BoolSearcher (Ch Weird Op)
